@@ -677,7 +677,19 @@ pub fn run(ctx: &Ctx) -> Outcome {
             let (lo, hi) = range(total);
             (lo..hi).collect()
         };
+        // quick tier only: a loaded machine makes ~700 git executions per history very slow; cases
+        // not started within the budget are skipped and reported (fewer histories explored, never
+        // a verdict)
+        let started = std::time::Instant::now();
+        let skipped = std::sync::atomic::AtomicBool::new(false);
+        let budget = if ctx.tier == crate::report::Tier::Quick && only_idx.is_none() { Some(std::time::Duration::from_secs(240)) } else { None };
         crate::report::run_cases_threads(&mut acc, name, sample.len() as u64, 8, |j| {
+            if budget.map(|b| started.elapsed() > b).unwrap_or(false) {
+                let mut out = CaseOut::new();
+                out.count("git_cases_skipped_for_time", 1);
+                skipped.store(true, std::sync::atomic::Ordering::Relaxed);
+                return out;
+            }
             let i = sample[j as usize];
             let k = 1 + (i as usize) / kinds.len();
             let kind = kinds[(i as usize) % kinds.len()];
@@ -685,7 +697,7 @@ pub fn run(ctx: &Ctx) -> Outcome {
             git_case(with_remote, k, kind, i, &mut out);
             out
         });
-        if only.is_none() && sample.len() as u64 == total {
+        if only.is_none() && sample.len() as u64 == total && !skipped.load(std::sync::atomic::Ordering::Relaxed) {
             acc.exhaustive_parts.push(format!("{name}: every git invocation (1..={n}) of the target sync x {kinds:?}"));
         }
     }
